@@ -90,7 +90,20 @@ def run(ctx, canary=False):
             for (pi, ps, pt) in (hist or {}).get("prior", []):
                 E.run_estimate(eng, E.measurements(pi, "dense"), pt, ps, {})
             meas = E.measurements(inst, rng.choice(["dense", "sparse", "mixed"]))
-            model, ev = E.run_estimate(eng, meas, total, solver, opts)
+            cb = None
+            if rng.random() < 0.35:
+                # a progress monitor that asks the engine's current model for one- and two-way answers while the solver runs
+                attrs_ = list(inst["order"])
+                def cb(mu, eng=eng, attrs_=attrs_):
+                    try:
+                        for i_ in range(len(attrs_)):
+                            eng.model.project((attrs_[i_],))
+                            for j_ in range(i_ + 1, len(attrs_)):
+                                eng.model.project((attrs_[i_], attrs_[j_]))
+                    except Exception:
+                        pass
+                info["monitoring_callback"] = True
+            model, ev = E.run_estimate(eng, meas, total, solver, opts, callback=cb)
         except Exception as ex:
             ctx.violation("estimate raised %r" % ex, info, {"kind": "crash", "solver": solver, "empty": not inst["meas"]})
             continue
